@@ -279,7 +279,7 @@ func (c simCC) UpdateState(st balancer.State) {
 	s.pubInOp++
 }
 func (c simCC) ResolveNow(resolver.ResolveNowOptions) {}
-func (c simCC) Target() string                          { return "verif" }
+func (c simCC) Target() string                        { return "verif" }
 
 // ------------------------------------------------------------------ shadow helpers
 
@@ -1449,12 +1449,12 @@ var simKeys = []string{"k1", "k2", "k3", "k4"}
 
 func simMethodTable() (map[string]simMethod, []*pb.MethodConfig) {
 	m := map[string]simMethod{
-		"/v/bind":     {"bind", "key"},
-		"/v/bindmany": {"bind", "keys"},
-		"/v/bound":    {"bound", "key"},
-		"/v/boundn":   {"bound", "nested.key"},
+		"/v/bind":      {"bind", "key"},
+		"/v/bindmany":  {"bind", "keys"},
+		"/v/bound":     {"bound", "key"},
+		"/v/boundn":    {"bound", "nested.key"},
 		"/v/boundmany": {"bound", "keys"},
-		"/v/unbind":   {"unbind", "key"},
+		"/v/unbind":    {"unbind", "key"},
 	}
 	cmd := map[string]pb.AffinityConfig_Command{"bind": pb.AffinityConfig_BIND, "bound": pb.AffinityConfig_BOUND, "unbind": pb.AffinityConfig_UNBIND}
 	var names []string
